@@ -7,75 +7,118 @@ those decisions: the model's result is the error exactly when one of the source'
 holds, and otherwise the value the model computes. A changed bound in the source (`> 65536` for
 `> 65535`, a dropped `< 0`) changes the generated list and breaks the theorem, whether or not a
 generated input sits on the boundary.
+
+Each statement has two halves: `…_iff` (the generated list, as a disjunction, is the model's
+rejection condition — proved by unfolding the list and `omega`, so that it does not depend on how
+the source arranges its checks) and `…_guarded` (the model is `if <list>.any then error else value`).
 -/
 import Iso8583.Gen.GuardsNet
 import Iso8583.Model.Network
+import Iso8583.Lemmas.GuardTactics
 
 namespace Iso8583.GuardsNet
 open Iso8583 Iso8583.Gen.Guards Net
 
+theorem binary2_setLength_iff (n : Int) : (binary2_SetLength_guards n).any id = true ↔ (n < 0 ∨ n > 65535) := by
+  unfold binary2_SetLength_guards; guards_to_prop <;> omega
+
+theorem vmlh_setLength_iff (n : Int) : (vmlh_SetLength_guards n).any id = true ↔ (n < 0 ∨ n > 65535) := by
+  unfold vmlh_SetLength_guards; guards_to_prop <;> omega
+
+theorem setLength16_model (h : Hdr) (hh : h = .binary2 ∨ h = .vmlh) (n : Int) :
+    setLength h n = if (n < 0 ∨ n > 65535) then .err else .ok (wrap16 n) := by
+  rcases hh with rfl | rfl <;> simp only [setLength] <;>
+    (by_cases a : n < 0 <;> by_cases b : n > 65535 <;> simp [a, b])
+
 /-- `Binary2Bytes.SetLength` -/
 theorem binary2_setLength_guarded (n : Int) :
     setLength .binary2 n = if (binary2_SetLength_guards n).any id then .err else .ok (wrap16 n) := by
-  simp only [setLength, binary2_SetLength_guards, List.any_cons, List.any_nil, id, Bool.or_false,
-    Bool.or_eq_true, decide_eq_true_eq]
-  split
-  · simp [*]
-  · split
-    · simp [*]
-    · rename_i h1 h2; simp [h1, h2]
+  rw [setLength16_model .binary2 (Or.inl rfl)]
+  by_cases c : n < 0 ∨ n > 65535
+  · rw [if_pos c, if_pos ((binary2_setLength_iff n).mpr c)]
+  · rw [if_neg c, if_neg (fun h => c ((binary2_setLength_iff n).mp h))]
 
 /-- `VMLH.SetLength` -/
 theorem vmlh_setLength_guarded (n : Int) :
     setLength .vmlh n = if (vmlh_SetLength_guards n).any id then .err else .ok (wrap16 n) := by
-  simp only [setLength, vmlh_SetLength_guards, List.any_cons, List.any_nil, id, Bool.or_false,
-    Bool.or_eq_true, decide_eq_true_eq]
-  split
-  · simp [*]
-  · split
-    · simp [*]
-    · rename_i h1 h2; simp [h1, h2]
+  rw [setLength16_model .vmlh (Or.inr rfl)]
+  by_cases c : n < 0 ∨ n > 65535
+  · rw [if_pos c, if_pos ((vmlh_setLength_iff n).mpr c)]
+  · rw [if_neg c, if_neg (fun h => c ((vmlh_setLength_iff n).mp h))]
+
+theorem ascii4_writeTo_iff (len : Int) :
+    (ascii4_WriteTo_guards len).any id = true ↔ (len < 0 ∨ len > (Gen.maxASCII4BytesLength : Int)) := by
+  unfold ascii4_WriteTo_guards; guards_to_prop <;> omega
+
+theorem bcd2_writeTo_iff (len : Int) :
+    (bcd2_WriteTo_guards len).any id = true ↔ (len < 0 ∨ len > (Gen.maxBCD2BytesLength : Int)) := by
+  unfold bcd2_WriteTo_guards; guards_to_prop <;> omega
+
+theorem vmlh_writeTo_iff (len : Int) :
+    (vmlh_WriteTo_guards len).any id = true ↔ len > (Gen.vmlMaxMessageLength : Int) := by
+  unfold vmlh_WriteTo_guards; guards_to_prop <;> omega
 
 /-- `ASCII4BytesHeader.WriteTo` -/
 theorem ascii4_writeTo_guarded (len : Int) :
     writeTo .ascii4 len = if (ascii4_WriteTo_guards len).any id then .err else .ok (fmt04d len.toNat) := by
-  simp only [writeTo, ascii4_WriteTo_guards, List.any_cons, List.any_nil, id, Bool.or_false,
-    Bool.or_eq_true, decide_eq_true_eq]
+  simp only [writeTo]
+  by_cases c : len < 0 ∨ len > (Gen.maxASCII4BytesLength : Int)
+  · rw [if_pos c, if_pos ((ascii4_writeTo_iff len).mpr c)]
+  · rw [if_neg c, if_neg (fun h => c ((ascii4_writeTo_iff len).mp h))]
 
 /-- `BCD2BytesHeader.WriteTo` -/
 theorem bcd2_writeTo_guarded (len : Int) :
     writeTo .bcd2 len =
       if (bcd2_WriteTo_guards len).any id then .err else Enc.encode .bcd (fmt04d len.toNat) := by
-  simp only [writeTo, bcd2_WriteTo_guards, List.any_cons, List.any_nil, id, Bool.or_false,
-    Bool.or_eq_true, decide_eq_true_eq]
+  simp only [writeTo]
+  by_cases c : len < 0 ∨ len > (Gen.maxBCD2BytesLength : Int)
+  · rw [if_pos c, if_pos ((bcd2_writeTo_iff len).mpr c)]
+  · rw [if_neg c, if_neg (fun h => c ((bcd2_writeTo_iff len).mp h))]
 
 /-- `VMLH.WriteTo` -/
 theorem vmlh_writeTo_guarded (len : Int) :
     writeTo .vmlh len =
       if (vmlh_WriteTo_guards len).any id then .err else .ok (be16Bytes len.toNat ++ [0, 0]) := by
-  simp only [writeTo, vmlh_WriteTo_guards, List.any_cons, List.any_nil, id, Bool.or_false, decide_eq_true_eq]
+  simp only [writeTo]
+  by_cases c : len > (Gen.vmlMaxMessageLength : Int)
+  · rw [if_pos c, if_pos ((vmlh_writeTo_iff len).mpr c)]
+  · rw [if_neg c, if_neg (fun h => c ((vmlh_writeTo_iff len).mp h))]
+
+theorem ascii4_readFrom_iff (read l : Int) :
+    (ascii4_ReadFrom_guards read l).any id = true ↔ (read ≠ 4 ∨ l < 0) := by
+  unfold ascii4_ReadFrom_guards; guards_to_prop <;> omega
 
 /-- `ASCII4BytesHeader.ReadFrom`, once `io.ReadFull` has delivered `got` and `strconv.Atoi`
 the number `l`: the two integer conditions of the source (`read != 4`, `l < 0`) decide -/
 theorem ascii4_readFrom_guarded (got : Bytes) (l : Int) (hfull : ¬ got.length < 4) (ha : atoi? got = some l) :
     ascii4After got =
       if (ascii4_ReadFrom_guards got.length l).any id then .err else .ok ⟨l, got.length, false⟩ := by
-  simp only [ascii4After, hfull, if_false, ha, ascii4_ReadFrom_guards, List.any_cons, List.any_nil, id,
-    Bool.or_false, Bool.or_eq_true, decide_eq_true_eq]
-  by_cases h4 : got.length = 4
-  · have : ¬ ((got.length : Int) ≠ 4) := by omega
-    simp [h4]
-  · have : (got.length : Int) ≠ 4 := by omega
-    simp [h4, this]
+  simp only [ascii4After, hfull, if_false, ha]
+  by_cases c : ((got.length : Int) ≠ 4 ∨ l < 0)
+  · rw [if_pos ((ascii4_readFrom_iff _ _).mpr c)]
+    rcases c with c | c
+    · have : got.length ≠ 4 := by omega
+      simp [this]
+    · by_cases h4 : got.length ≠ 4
+      · simp [h4]
+      · simp [h4, c]
+  · rw [if_neg (fun h => c ((ascii4_readFrom_iff _ _).mp h))]
+    have h4 : ¬ got.length ≠ 4 := by omega
+    have hl : ¬ l < 0 := by omega
+    simp [h4, hl]
+
+theorem vmlh_readFrom_iff (len : Int) :
+    (vmlh_ReadFrom_guards len).any id = true ↔ len > (Gen.vmlMaxMessageLength : Int) := by
+  unfold vmlh_ReadFrom_guards; guards_to_prop <;> omega
 
 /-- `VMLH.ReadFrom`: the length bound of the source is the model's -/
 theorem vmlh_readFrom_guarded (b0 b1 : Byte) (rest : Bytes) (h : (b0 :: b1 :: rest).length = 4) :
     (vmlh_ReadFrom_guards (be16 b0 b1)).any id = true → vmlhAfter (b0 :: b1 :: rest) = .err := by
   intro hg
-  simp only [vmlh_ReadFrom_guards, List.any_cons, List.any_nil, id, Bool.or_false, decide_eq_true_eq] at hg
+  have hg' := (vmlh_readFrom_iff _).mp hg
   have h' : ¬ ((b0 :: b1 :: rest).length ≠ 4) := by simp [h]
   simp only [vmlhAfter, h', if_false]
-  have : be16 b0 b1 > Gen.vmlMaxMessageLength := by exact_mod_cast hg
+  have : be16 b0 b1 > Gen.vmlMaxMessageLength := by exact_mod_cast hg'
   simp [this]
 
 /-! non-vacuity: the lists are not empty, and the boundaries are where the property puts them -/
